@@ -94,6 +94,19 @@ def make_plane(name, seed):
         qm = np.asarray(q.mask)
         return q, dict(info, ptype='pupil', z=1.0, ps=DX / 2, shape=tuple(qm.shape[-2:]), amp=np.array(q.amplitude, copy=True),
                        opd=np.array(q.opd, copy=True), mask=qm.sum(0) > 0)
+    if name == 'amp_reassigned':
+        # the mask was derived from the first amplitude; a new amplitude is assigned afterwards: the mask is still the mask
+        holed = c(a['A2']); holed[2, 2] = 0; holed[0, 0] = 0; holed[1, 3] = 0       # support with holes inside its bounding box
+        p = lentil.Plane(amplitude=holed)
+        p.amplitude = c(a['A2'])
+        return p, dict(info, amp=a['A2'], mask=np.asarray(p.mask) != 0)
+    if name == 'nomask_rescaled':
+        # no explicit mask, then resampled: the spline-interpolated amplitude rings beyond the resampled mask
+        holed = c(a['A2']); holed[2, 2] = 0; holed[0, 0] = 0; holed[1, 3] = 0
+        q = lentil.Pupil(amplitude=holed, opd=c(a['O1']), pixelscale=DX, focal_length=1.0).rescale(1.5)
+        qm = np.asarray(q.mask)
+        return q, dict(info, ptype='pupil', z=1.0, ps=DX / 1.5, shape=tuple(qm.shape[-2:]), amp=np.array(q.amplitude, copy=True),
+                       opd=np.array(q.opd, copy=True), mask=qm != 0)
     if name == 'opd_zero_sum':
         # an OPD whose samples cancel exactly (antisymmetric about the centre) is still an OPD
         rr_, cc_ = np.meshgrid(np.arange(S[0]) - (S[0] - 1) / 2, np.arange(S[1]) - (S[1] - 1) / 2, indexing='ij')
@@ -123,7 +136,7 @@ def make_plane(name, seed):
     raise ValueError(name)
 
 
-PLANES = ['plane0', 'pupil', 'pupil2', 'seg', 'seg_fit', 'seg3_fit', 'seg3_fit_b', 'seg3_fit_c', 'seg_scalar', 'pupil_fit', 'mask_scalar', 'mask_scalar_used_rescaled', 'seg_used_rescaled', 'opd_zero_sum', 'px_scalar_other', 'mask_opd', 'amp_mask', 'opd_only',
+PLANES = ['plane0', 'pupil', 'pupil2', 'seg', 'seg_fit', 'seg3_fit', 'seg3_fit_b', 'seg3_fit_c', 'seg_scalar', 'pupil_fit', 'mask_scalar', 'mask_scalar_used_rescaled', 'seg_used_rescaled', 'amp_reassigned', 'nomask_rescaled', 'opd_zero_sum', 'px_scalar_other', 'mask_opd', 'amp_mask', 'opd_only',
           'small', 'tilt', 'image', 'px_other', 'px_tiny']
 PROPS = {'prop': dict(shape=(3, 4), prop_shape=None, oversample=2), 'prop_win': dict(shape=(5, 5), prop_shape=(2, 3), oversample=1),
          'prop_small': dict(shape=(6, 6), prop_shape=(2, 2), oversample=1)}
